@@ -16,7 +16,7 @@ pub fn property() -> Property {
     Property {
         id: "C07",
         level: "exploration",
-        rule: "Requests are built from generated programs of builder calls (method incl. extension tokens; URL path/query with unicode, blanks, percent and reserved characters; param/params/query with arbitrary UTF-8 keys/values; header/header_append with names over the token alphabet and values over visible ASCII + obs-text; basic_auth/bearer_auth over arbitrary strings; bodies: none, text, bytes, file (cursor at 0/mid/end, 0..300 KiB), json, json_streaming (> 8 KiB), form, multipart, and custom Body programs = random sequences of write/write_all/flush/zero-length write/write_vectored, 1 B..200 KiB per call, wrapped in BufWriter or not, declared Chunked or honest KnownLength), sent through the scripted transport (optionally with short-write / Interrupted schedules) and the bytes received by the peer are decoded by an independent strict request parser cross-checked with httparse. Oracle: exactly one request and nothing after it; method, percent-decoded path, form-decoded query pairs, per-name header value lists, base64-decoded credentials and de-framed body equal the builder inputs (value model of the documented header semantics); framing consistent (CL == octets written; chunked with the terminator as the only zero-length chunk; never both, never neither for a non-empty body); exactly one `Connection: close`. An 'after-failure' generator first lets a send fail while its request is being written (transport error at byte k <= 600) and then judges the next request of the same thread the same way. Non-trivial: every case; distinct = hash(bytes on the wire, write-fault schedule).",
+        rule: "Requests are built from generated programs of builder calls (method incl. extension tokens; URL path/query with unicode, blanks, percent and reserved characters; param/params/query with arbitrary UTF-8 keys/values; header/header_append with names over the token alphabet and values over visible ASCII + obs-text; basic_auth/bearer_auth over arbitrary strings; bodies: none, text, bytes, file (cursor at 0/mid/end, 0..300 KiB), json, json_streaming (> 8 KiB), form, multipart, and custom Body programs = random sequences of write/write_all/flush/zero-length write/write_vectored, 1 B..200 KiB per call, wrapped in BufWriter or not, declared Chunked or honest KnownLength), sent through the scripted transport (optionally with short-write / Interrupted schedules) and the bytes received by the peer are decoded by an independent strict request parser cross-checked with httparse. Oracle: exactly one request and nothing after it; method, percent-decoded path, form-decoded query pairs, per-name header value lists, base64-decoded credentials and de-framed body equal the builder inputs (value model of the documented header semantics); framing consistent (CL == octets written; chunked with the terminator as the only zero-length chunk; never both, never neither for a non-empty body); exactly one `Connection: close`. An 'after-failure' generator first lets a send fail while its request is being written (transport error at byte k <= 600) and then judges the next request of the same thread the same way; a 'failing-bodies' generator makes a custom Body fail after k of its operations: send() must fail and the bytes on the connection must not form a complete request (a cut-short body is not sealed with the terminating chunk). Non-trivial: every case; distinct = hash(bytes on the wire, write-fault schedule).",
         assumptions: &["callers that hand-set framing headers contradicting the body, and dishonest KnownLength bodies, are not generated", "header values are generated without leading/trailing blanks (no parser can hand those back)"],
         min_nontrivial: |t| t.pick(5_000, 200_000),
         gens,
@@ -29,6 +29,7 @@ fn gens(tier: Tier) -> Vec<Gen> {
     vec![
         Gen { name: "programs", count: tier.pick(8_000, 600_000), exhaustive: false, run: run_program },
         Gen { name: "after-failure", count: tier.pick(1_500, 60_000), exhaustive: false, run: run_after_failure },
+        Gen { name: "failing-bodies", count: tier.pick(1_500, 60_000), exhaustive: false, run: run_failing_body },
         Gen { name: "custom-bodies", count: tier.pick(4_000, 300_000), exhaustive: false, run: run_custom },
     ]
 }
@@ -820,4 +821,61 @@ fn run_after_failure(ctx: &mut Ctx, rng: &mut Rng, index: u64) {
         }
     }
     run_custom(ctx, rng, index);
+}
+
+/// a body source that fails after its first k operations
+struct FailingProg {
+    prog: Prog,
+    k: usize,
+}
+
+impl Body for FailingProg {
+    fn kind(&mut self) -> io::Result<BodyKind> {
+        self.prog.kind()
+    }
+    fn write<W: Write>(&mut self, mut writer: W) -> io::Result<()> {
+        let head = Prog { ops: self.prog.ops[..self.k].to_vec(), kind: self.prog.kind, buffered: false, calls: 0 };
+        head.run(&mut writer)?;
+        Err(io::Error::new(io::ErrorKind::Other, "verif: the body source failed"))
+    }
+}
+
+/// the caller's body fails part-way: send() reports it, and what reached the connection is not
+/// presented as a complete request (no terminating chunk after a body that was cut short, no
+/// Content-Length satisfied by padding) - a peer must not take the truncated body for the body
+fn run_failing_body(ctx: &mut Ctx, rng: &mut Rng, _index: u64) {
+    let (rb, mut m) = build_common(rng, ctx, "origin.test");
+    let mut prog = random_prog(rng, ctx);
+    if prog.ops.is_empty() {
+        prog.ops.push(Op::WriteAll(b"some body".to_vec()));
+    }
+    let k = rng.range(0, prog.ops.len());
+    let total = prog.total();
+    let before: usize = Prog { ops: prog.ops[..k].to_vec(), kind: prog.kind, buffered: false, calls: 0 }.total().len();
+    let kind = prog.kind;
+    m.body = total.clone();
+    m.body_kind = if kind == ProgKind::Chunked { "custom-chunked" } else { "custom-known" };
+    let world = World::install(move |_, _, _| Answer::Script(vec![Step::Data(OK_RESPONSE.to_vec())], WriteFaults::default()));
+    let res = rb.body(FailingProg { prog, k }).send();
+    let what = format!("custom body {kind:?} failing after {k} operations ({before} of {} body bytes written)", total.len());
+    ctx.count("failing_body_cases", 1);
+    if res.is_ok() {
+        ctx.violation("body-error-swallowed", format!("{what}: send() returned Ok although Body::write returned an error"));
+    }
+    if world.dial_count() > 0 {
+        let written = world.trace(0).written;
+        // an announced length that is already satisfied (k operations wrote everything) is complete by construction
+        let complete_by_construction = kind == ProgKind::Known && before == total.len();
+        if !complete_by_construction {
+            if let Ok(p) = request::parse_exactly_one(&written) {
+                ctx.violation(
+                    format!("failed-body-sealed:{}", m.body_kind),
+                    format!("{what}: the bytes on the connection are a complete, well-formed request with a {}-byte body although the body source failed; wire tail={}", p.body.len(), show(&written[written.len().saturating_sub(60)..])),
+                );
+            } else {
+                ctx.count("failed_bodies_left_unterminated", 1);
+            }
+        }
+        ctx.nontrivial(&written);
+    }
 }
